@@ -133,20 +133,19 @@ Qed.
     not cut by a DelayToPush ([links_ok]: such a link carries pass-through adapters, buffers and non-negative fixed
     delays only).  If no closed walk of that graph has positive weight - on every cycle the delays sum to at least the
     sum of the largest steps, wherever they sit and however they are split - and the pull-based components do not feed
-    each other in a circle ([rank]), no run reports a circular coupling.  The potential that [C04_delay_sufficient]
-    asks for is constructed (minus the heaviest walk leaving a component; walks of n or more links repeat a component,
-    and cutting the closed part out loses nothing): Potential_proofs.v, no graph theory assumed. *)
+    each other in a circle ([pull_graph], the uncut links between pull-based components, has no closed walk), no run
+    reports a circular coupling.  The potential and the ranking that [C04_delay_sufficient] asks for are constructed
+    (minus the heaviest walk leaving a component; walks of n or more links repeat a component, and cutting the closed
+    part out loses nothing): Potential_proofs.v, no graph theory assumed. *)
 Theorem C04_cycles_covered_run :
-  forall cs rank endt fuel o st acc,
+  forall cs endt fuel o st acc,
     wf cs -> links_ok cs ->
     (forall u c, c <> [] -> walk (delay_graph cs) u c -> endn u c = u -> wt c <= 0) ->
-    (forall c k inp, nth_error (c_inputs (getc cs c)) k = Some inp ->
-       is_time cs c = false -> is_time cs (fst (i_src inp)) = false ->
-       cut_by_nodep (i_chain inp) = true \/ (rank (fst (i_src inp)) < rank c)%nat) ->
+    (forall u c, c <> [] -> walk (pull_graph cs) u c -> endn u c = u -> False) ->
     run fuel cs endt = (o, st, acc) -> o <> OCirc.
 Proof.
-  intros cs rank endt fuel o st acc W LO NP RK H.
-  destruct (cycles_covered_give_potential cs rank LO NP RK) as [phi S].
+  intros cs endt fuel o st acc W LO NP AC H.
+  destruct (cycles_covered_give_sufficient cs LO NP AC) as [phi [rank S]].
   exact (C04_delay_sufficient cs phi rank endt fuel o st acc W S H).
 Qed.
 
@@ -260,9 +259,11 @@ Example C04_cycles_covered_nonvacuous :
   (* ex_ring3 meets the hypotheses of C04_cycles_covered_run; its delay graph is the single cycle of weight 0 *)
   links_ok ex_ring3 /\
   delay_graph ex_ring3 = [(0%nat, 2%nat, -1); (1%nat, 0%nat, -2); (2%nat, 1%nat, 3)] /\
-  (forall u c, c <> [] -> walk (delay_graph ex_ring3) u c -> endn u c = u -> wt c <= 0).
+  (forall u c, c <> [] -> walk (delay_graph ex_ring3) u c -> endn u c = u -> wt c <= 0) /\
+  (forall u c, c <> [] -> walk (pull_graph ex_ring3) u c -> endn u c = u -> False).
 Proof.
-  split; [|split; [vm_compute; reflexivity|]].
+  split; [|split; [vm_compute; reflexivity|split]].
+  3:{ intros u c Hc W _. destruct c as [|e r]; [congruence|]. cbn in W. destruct W as [_ [[] _]]. }
   - intros c k inp Hk. right.
     destruct c as [|[|[|c]]]; simpl in Hk;
       try (destruct k as [|k]; simpl in Hk; [inversion Hk; subst; clear Hk|destruct k; discriminate]).
